@@ -336,7 +336,7 @@ def run(ctx, obl):
         if pk["cmd"] == "new":
             tys = pk["all_types"] if aio else pk["types"]
             tye = pke["all_types"] if aio else pke["types"]
-            payload = [["cmd", "new"], ["flags"] + [f[1:] for f in pk["flags"] if f in ("-getset", "-json")],
+            payload = [["cmd", "new"], ["flags"] + detgen.flags_sexp(pk["flags"]),
                        ["mode", "aio" if aio else "sep"], ["aio", Q(detgen.aio_file(pk["gofile"], "new"))],
                        ["types"] + [pk["tsexp"](t) for t in tys], ["edited"] + [pke["tsexp"](t) for t in tye],
                        ["alltypes"] + ([] if aio else [pk["tsexp"](t) for t in pk["all_types"]])]
